@@ -91,6 +91,15 @@ TEXT['C06'] = dict(
     note=BOUNDED_NOTE + 'Deadlock freedom beyond trace equality rests on the assumed MPI progress contract.',
     technique='bounded run-time checking under simulated MPI with collective-matching detection; hash-seed sweep of the route search')
 
+TEXT['C05'] = dict(
+    category='other',
+    text='Bounded stand-in: the statements of the driver time loop are sliced mechanically out of fullSimulation.main and one '
+         'Strang step is executed with the real classes on 1 and on several simulated ranks; the assembled global f and phi must '
+         'agree with the serial run. The slice-locality contracts of DESIGN C05 (each operator uses the parameters of the own global '
+         'coordinates) are being added operator by operator.',
+    note=BOUNDED_NOTE + 'Found and fixed two genuine defects this way (fix: 3ea85e8, 5860959).',
+    technique='bounded differential run of the real driver statements across process grids under simulated MPI')
+
 NOT_APPLICABLE = {
     'C19': 'compares compiled pyccel artefacts with their Python source: translation validation; no deductive verifier for the '
            'generated Fortran/C is installed (DESIGN.md, C19)',
